@@ -15,6 +15,7 @@ TITLE = "Array evaluation equals elementwise scalar evaluation for every dtype"
 LEVEL = "exploration"
 BUDGET = {"quick": 4000, "thorough": 150000}
 SHRINK = {"quick": True, "thorough": True}
+FUZZ = {"thorough": 2500}  # executions per atheris process (16 processes), after the Hypothesis search
 RULE = (
     "Hypothesis draws an oil (as C12), salinity 0..25, a gas pseudocritical point, a dtype from "
     "{float64, float32, int64, int32}, a length 0..40 and a layout (contiguous, step 2, step 3, reversed view of a "
